@@ -74,6 +74,10 @@ def writer_circuits():
         yield k, c
     for k, c in deep_circuits():
         yield k, c
+    from ..corpus import corpus
+
+    for k, tags, c in corpus("quick", exclude=("x",)):
+        yield f"corpus::{k}", c
     yield "const-zero-feeds-logic", build({"a": ("input", []), "z": ("0", []), "g": ("or", ["a", "z"]), "h": ("xor", ["g", "z"])}, outputs=["h", "g"])
     yield "const-one-feeds-logic", build({"a": ("input", []), "b": ("input", []), "w": ("1", []), "g": ("and", ["a", "w"]), "h": ("nand", ["g", "w", "b"])}, outputs=["h"])
     yield "constants-are-outputs", build({"a": ("input", []), "z": ("0", []), "w": ("1", []), "g": ("not", ["a"])}, outputs=["z", "w", "g"])
